@@ -18,6 +18,7 @@ RULE = (
     "history has >=1 reveal/mask/unmask on a stage whose rows do not cover the parent's mapping. distinct = distinct case JSON."
     ' Also: fixed boundary-size simulations (2**8, 2**15, 2**16 (+60) sample names or conditions, the last names in held-out experiments only).'
     ' Also: sparse designs with names x doses above 2**32 (100k x 100k names and doses, 300k experiments; thorough larger) and with exactly 2**16 doses; one history in forty has 25..45 operations.'
+    " Fixed cases pass the stages' archives through other interpreter processes (saveload_xproc)."
 )
 ASSUMPTIONS = [
     "the prepared simulation is the pair returned by the hold-out split of the parent; stored values are in (0,1] so reveals are accepted",
@@ -73,6 +74,17 @@ def strategy(tier):
 
 
 def exhaustive(tier):
+    # the stages of one simulation run as separate interpreter processes (other string-hash salts), as the pipeline's commands do:
+    # archives written by one process are read and re-written by another; the training rows do not cover the id tables
+    for v in range(2 if tier == "quick" else 5):
+        rows = []
+        for i in range(10 + 2 * v):
+            rows.append({"s": ["a", "b", "c"][i % 3], "p": "obs%d" % (i % 2), "t": ["t%d" % (i % 3), "t%d" % ((i + 1 + i // 3 % 2) % 3)], "d": [1.0, 2.0], "o": 0.3 + 0.04 * i})
+        for i in range(6 + v):
+            rows.append({"s": ["a", "d", "c", "e"][i % (3 + v % 2)], "p": "u%d" % (i % 3), "t": ["t%d" % (i % 5), "t%d" % ((i + 2) % 6)], "d": [1.0, [2.0, 4.0][i % 2]], "o": 0.5})
+        sc = {"arity": 2, "control": "ctl", "rows": rows, "observed": ["obs0", "obs1"], "ns": 5, "nt": 12, "layout": None}
+        ops = [{"op": "saveload_xproc", "stage": "train", "picks": [v]}, {"op": "reveal", "stage": "train", "picks": [0]}, {"op": "saveload_xproc", "stage": "train", "picks": [v + 1]}, {"op": "saveload_xproc", "stage": "test", "picks": [v + 2]}, {"op": "mask", "stage": "train", "picks": [1]}]
+        yield {"screen": sc, "fraction": [1.0, 0.5][v % 2], "seed": 100 + v, "ops": ops, "theta": {"kind": "additive", "alpha": 0.1, "precision": 2.0}}
     # simulations whose name tables cross 2**8, 2**15, 2**16 entries while the last names (the highest ids) occur in held-out
     # experiments only: the training screen's rows then stay below the boundary, its mappings do not
     sizes = [(a, n) for n in (2**8, 2**15, 2**16) for a in ("samples", "treatments")] if tier != "quick" else [("samples", 2**8), ("treatments", 2**8), ("samples", 2**16), ("treatments", 2**15)]
@@ -306,6 +318,15 @@ def check_case(case):
                     s.save_h5(a)
                     run_cli("reveal_plate", ["--screen", a, "--output", b, "--plate-id"] + ids, verbose=op["picks"][0] % 2 == 1)
                     s = Screen.load_h5(b)
+            elif kind == "saveload_xproc":
+                from vf import xproc
+
+                a, b = tmp.fresh("stage.h5"), tmp.fresh("stage_next.h5")
+                paths += [a, b]
+                s.save_h5(a)
+                ok_, text_ = xproc.python("from batchie.data import Screen\nScreen.load_h5(params['src']).save_h5(params['dst'])\n", 700 + 13 * op["picks"][0], src=a, dst=b)
+                require(ok_, "saveload_xproc.failed", lambda: "loading and saving the stage's archive in another process failed: %s" % text_[-500:])
+                s = Screen.load_h5(b)
             elif kind == "mask":
                 s = mask_screen(s)
             elif kind == "unmask":
